@@ -64,3 +64,15 @@ Theorem C14_slicing_levels (plo phi : R) (k d : nat) : NoDup (linspace RN plo ph
 Proof. exact (slicing_levels_complete plo phi k d). Qed.
 Print Assumptions C14_slicing_levels.
 Print Assumptions C14_contains_every_selection.
+
+(* "stacking, with equal weights": with N focal intervals of mass 1/N each, listed in ANY order, the bound at a level a with t/N < a <= (t+1)/N is the
+   (t+1)-th smallest lower (upper) end - the order-statistic reference the C14 check decides the returned p-box against at every grid level *)
+From Coq Require Import Lra.
+From PUN Require Import Proofs.Stacking Proofs.EqualStack.
+Theorem C14_equal_weight_stack_is_order_statistic (s : list R) (t : nat) (a : R) : (t < length s)%nat ->
+  (INR t / INR (length s) < a <= INR (S t) / INR (length s))%R -> (0 < a <= 1)%R ->
+  ecdf_at s (equal_weights RN (length s)) a = nth t (Rsort s) 0%R.
+Proof. exact (equal_weight_mixture_order_statistic s t a). Qed.
+Print Assumptions C14_equal_weight_stack_is_order_statistic.
+Example C14_order_statistic_ex : ecdf_at [3; 1; 2]%R (equal_weights RN 3) (1 / 2)%R = nth 1 (Rsort [3; 1; 2]%R) 0%R.
+Proof. apply (C14_equal_weight_stack_is_order_statistic [3; 1; 2]%R 1 (1 / 2)%R); cbn; [auto | split | split]; lra. Qed.
